@@ -122,10 +122,27 @@ pub fn install_quiet_panic_hook() {
         };
         let loc = info
             .location()
-            .map(|l| format!("{}:{}", l.file(), l.line()))
+            .map(|l| format!("{}:{}", short_file(l.file()), l.line()))
             .unwrap_or_else(|| "<unknown>".into());
         LAST_PANIC.with(|p| *p.borrow_mut() = Some((msg, loc)));
     }));
+}
+
+/// panic locations inside dependencies / std without the machine-specific part of the path
+/// (`<cargo home>/registry/src/<index>/swc_common-0.36.0/src/x.rs` -> `swc_common-0.36.0/src/x.rs`)
+fn short_file(f: &str) -> String {
+    if let Some(i) = f.find("/registry/src/") {
+        let rest = &f[i + "/registry/src/".len()..];
+        if let Some(j) = rest.find('/') {
+            return rest[j + 1..].to_string();
+        }
+    }
+    if let Some(rest) = f.strip_prefix("/rustc/") {
+        if let Some(j) = rest.find('/') {
+            return format!("rustc/{}", &rest[j + 1..]);
+        }
+    }
+    f.to_string()
 }
 
 pub fn take_last_panic() -> Option<(String, String)> {
